@@ -4,6 +4,7 @@ CONSTANTS
   Pool <- PoolA
   MaxLevel = 2
   MaxLearnt = 1
+  CheckPool <- NoChecks
   LoseWatchBug = FALSE
 CONSTRAINT Bounded
 INVARIANT WatchInv
